@@ -12,6 +12,12 @@ Driver requests for L3–L5 (container fragment):
 
     cst   ::= (l <kind> <text>) | (L (item…) <closeGap>) | (S <t|f> <recGap> (item…) <closeGap>)
             | (P (item…) <closeGap>) | (A cst (gc…) <gap> cst)
+            | (K <w|a> (gc…) <g1> cst (gc…) <g2> (gc…) <g3> cst)      (`with` / `assert`)
+            | (D cst (gc…) <g1> <gd> (<attr>…))                       (select `e.a.b`, no default)
+            | (O cst (gc…) <g1> <gd> (<attr>…) (gc…) <g2> <g3> cst)    (select with `or` default)
+            | (F1 <name> (gc…) <g1> (gc…) <g2> cst)                   (lambda `x: body`)
+            | (U <op> (gc…) <g> cst)                                  (unary operator)
+            | (B cst (gc…) <g1> <op> (gc…) <g2> cst)                  (binary operator)
     item  ::= (c <gap> <text>) | (e <gap> cst)
             | (b <gap> <name> (gc…) <g1> (gc…) <g2> cst (gc…) <g3>)
     gc    ::= (<gap> <text>)
@@ -24,6 +30,13 @@ open Nima Nima.Frag
 
 def decKind : String → Option LeafKind
   | "i" => some .ident | "n" => some .int | "f" => some .float | "s" => some .str | "p" => some .path
+  | _ => none
+
+def decTexts : List SExp → Option (List Text)
+  | [] => some []
+  | .atom t :: rest => do
+      let t ← decText t; let r ← decTexts rest
+      pure (t :: r)
   | _ => none
 
 def decGC : List SExp → Option GC
@@ -42,6 +55,20 @@ partial def decCst : SExp → Option Cst
   | .list [.atom "P", .list its, .atom cg] => do pure (.paren (← decItems its) (← decText cg))
   | .list [.atom "A", f, .list cs, .atom g, a] => do
       pure (.app (← decCst f) (← decGC cs) (← decText g) (← decCst a))
+  | .list [.atom "K", .atom w, .list c1, .atom g1, h, .list c2, .atom g2, .list c3, .atom g3, b] => do
+      pure (.kw (w == "w") (← decGC c1) (← decText g1) (← decCst h) (← decGC c2) (← decText g2) (← decGC c3)
+              (← decText g3) (← decCst b))
+  | .list [.atom "D", e, .list c1, .atom g1, .atom gd, .list attrs] => do
+      pure (.sel (← decCst e) (← decGC c1) (← decText g1) (← decText gd) (← decTexts attrs))
+  | .list [.atom "B", l, .list c1, .atom g1, .atom op, .list c2, .atom g2, r] => do
+      pure (.bin (← decCst l) (← decGC c1) (← decText g1) (← decText op) (← decGC c2) (← decText g2) (← decCst r))
+  | .list [.atom "U", .atom op, .list c, .atom g, e] => do
+      pure (.un (← decText op) (← decGC c) (← decText g) (← decCst e))
+  | .list [.atom "F1", .atom n, .list c1, .atom g1, .list c2, .atom g2, b] => do
+      pure (.lam (← decText n) (← decGC c1) (← decText g1) (← decGC c2) (← decText g2) (← decCst b))
+  | .list [.atom "O", e, .list c1, .atom g1, .atom gd, .list attrs, .list c2, .atom g2, .atom g3, d] => do
+      pure (.selOr (← decCst e) (← decGC c1) (← decText g1) (← decText gd) (← decTexts attrs) (← decGC c2)
+              (← decText g2) (← decText g3) (← decCst d))
   | _ => none
 partial def decItems : List SExp → Option Items
   | [] => some .nil
@@ -67,6 +94,16 @@ partial def encCst : Cst → SExp
   | .set r rg its cg => .list [.atom "S", sBool r, sText rg, .list (encItems its), sText cg]
   | .paren its cg => .list [.atom "P", .list (encItems its), sText cg]
   | .app f cs g a => .list [.atom "A", encCst f, encGC cs, sText g, encCst a]
+  | .kw w c1 g1 h c2 g2 c3 g3 b =>
+    .list [.atom "K", .atom (if w then "w" else "a"), encGC c1, sText g1, encCst h, encGC c2, sText g2, encGC c3,
+      sText g3, encCst b]
+  | .sel e c1 g1 gd attrs => .list [.atom "D", encCst e, encGC c1, sText g1, sText gd, .list (attrs.map sText)]
+  | .bin l c1 g1 op c2 g2 r => .list [.atom "B", encCst l, encGC c1, sText g1, sText op, encGC c2, sText g2, encCst r]
+  | .un op c g e => .list [.atom "U", sText op, encGC c, sText g, encCst e]
+  | .lam n c1 g1 c2 g2 b => .list [.atom "F1", sText n, encGC c1, sText g1, encGC c2, sText g2, encCst b]
+  | .selOr e c1 g1 gd attrs c2 g2 g3 d =>
+    .list [.atom "O", encCst e, encGC c1, sText g1, sText gd, .list (attrs.map sText), encGC c2, sText g2, sText g3,
+      encCst d]
 partial def encItems : Items → List SExp
   | .nil => []
   | .cmt g t rest => .list [.atom "c", sText g, sText t] :: encItems rest
@@ -87,7 +124,10 @@ def handle (req : SExp) : Option SExp :=
     match decFile f with
     | none => some (.list [.atom "bad-arg"])
     | some f =>
-      if !f.wf then some (.list [.atom "uncovered", .atom "wf"])
+      -- the string-level model is compared with the implementation on `File.modelled`, a superset of the
+      -- theorems' fragment `File.covered` (`assert`, comments in the inner gaps of `with` / `assert`)
+      if !(f.items.modelled .file f.endGap && f.items.countElems == 1 && isGap f.endGap) then
+        some (.list [.atom "uncovered", .atom "wf"])
       else if !f.noLeadingWs then some (.list [.atom "uncovered", .atom "leading-ws"])
       else match f.roundtrip with
         | .ok t => some (.list [.atom "ok", sText t])
@@ -124,7 +164,6 @@ def handle (req : SExp) : Option SExp :=
     | none => some (.list [.atom "bad-arg"])
     | some f =>
       if !f.covered then some (.list [.atom "uncovered", .atom "wf"])
-      else if !f.basic then some (.list [.atom "uncovered", .atom "not-basic"])
       else if !f.items.cf then some (.list [.atom "uncovered", .atom "comments"])
       else some (.list [.atom "ok", sText f.norm.flatten, encFile f.norm])
   | .list [.atom "flatten", f] =>
